@@ -46,6 +46,7 @@ type c08Srv struct {
 	evals    atomic.Int64 // EVAL/EVALSHA commands let through to execution
 	pings    atomic.Int64
 	rejected atomic.Int64 // commands answered with the injected error
+	rejEvals atomic.Int64 // of those, EVAL/EVALSHA (evidence only: how often the limiter still tried Redis during a fault)
 	errMode  atomic.Bool
 	garbage  atomic.Int32 // answer EVAL with a value the scripts never return
 }
@@ -114,11 +115,15 @@ func (s *c08Srv) install() {
 		}
 		if s.errMode.Load() {
 			s.rejected.Add(1)
+			if cmd == "EVAL" || cmd == "EVALSHA" {
+				s.rejEvals.Add(1)
+			}
 			c.WriteError("ERR c08 injected failure")
 			return true
 		}
 		if g := s.garbage.Load(); g != 0 && (cmd == "EVAL" || cmd == "EVALSHA") {
 			s.rejected.Add(1)
+			s.rejEvals.Add(1)
 			switch g {
 			case c08GarbageInt:
 				c.WriteInt(7)
@@ -1202,6 +1207,13 @@ func runC08Outage(m *vk.M, idx int, sc c08OScenario) {
 			}
 		}
 		x.obs.WriteByte(']')
+		if o.Fault != "close" {
+			// evidence only (the statement does not say how often a limiter may probe a
+			// failing Redis): script attempts the server saw while it was answering with
+			// the injected fault, against the calls made in that phase
+			m.Count("outage.calls-during-reply-fault", int64(len(o.Down)))
+			m.Count("outage.eval-attempts-seen-during-reply-fault", srv.rejEvals.Swap(0))
+		}
 		if o.Fault == "close" {
 			if err := srv.mr.Restart(); err != nil {
 				// the port was taken by somebody else on this shared machine
